@@ -107,6 +107,8 @@ def glob : String → Option Val
   | "CM" => some (cls "CM")
   | "GLOB1" => some (.int 11)
   | "GLOB2" => some (.int 22)
+  | "K1" => some (.int 31)     -- variables of an enclosing function (closure cells)
+  | "K2" => some (.int 32)
   | "O" => some (.obj "Obj" [])
   | "Boom" => some (cls "Boom")
   | "Exception" => some (cls "Exception")
